@@ -69,6 +69,9 @@ static const Base bases[] = {
 	{ "mps-sos", F_MPS,
 		"NAME sos\nREFROW\n ref\nROWS\n N obj\n N ref\n L c1\n G c2\nCOLUMNS\n S1 SOS1 'MARKER' 'SOSORG'\n x obj 1 ref 1\n x c1 1\n y obj 2 ref 2\n y c1 1 c2 1\n S1 SOS1 'MARKER' 'SOSEND'\n"
 		" S2 SOS2 'MARKER' 'SOSORG'\n u obj 1 ref 3\n u c2 1\n v obj 1 ref 5\n v c1 1\n w ref 4 c2 1\n S2 SOS2 'MARKER' 'SOSEND'\n z obj 1 c1 1\nRHS\n rhs c1 4 c2 1\nBOUNDS\n UP bnd z 3\nENDATA\n" },
+	{ "mps-sos-int", F_MPS,
+		"* integer markers followed by an SOS set: one edited marker makes SOS members integer\nNAME sosint\nROWS\n N obj\n L c1\n G c2\nCOLUMNS\n M1 'MARKER' 'INTORG'\n i1 obj 1 c1 1\n i2 obj 2 c2 1\n M2 'MARKER' 'INTEND'\n"
+		" S1 SOS1 'MARKER' 'SOSORG'\n x obj 1 c1 1\n y obj 2 c1 1 c2 1\n z obj 3 c2 1\n S1 SOS1 'MARKER' 'SOSEND'\n w obj 1 c1 1\nRHS\n rhs c1 4 c2 1\nBOUNDS\n UP bnd i1 3\n UP bnd i2 3\n UP bnd w 3\nENDATA\n" },
 	{ "bas-xuxl", F_BAS,
 		"* basis written for the 2x2 reference problem: both structurals basic\nNAME    verif\n XU x c1\n XL y c2\nENDATA\n" },
 	{ "bas-ulll", F_BAS,
